@@ -19,6 +19,25 @@ Definition ts2fn_dec (t : Z) : ustring := ustr_of_Z t.
 
 Definition pay_is (p : N) (o : obj) : bool := N.eqb (opay o) p.
 
+(* filters with the other operators, as verdicts (Filter._check_property on the property the harness names):
+   a property the object lacks makes every operator answer False *)
+Inductive cop := CEq | CNe | CLt | CGt | CLe | CGe.
+Definition pay_op (op : cop) (p : N) (o : obj) : bool :=
+  match op with
+  | CEq => N.eqb (opay o) p | CNe => negb (N.eqb (opay o) p)
+  | CLt => N.ltb (opay o) p | CGt => N.ltb p (opay o)
+  | CLe => N.leb (opay o) p | CGe => N.leb p (opay o)
+  end.
+Definition pay_in (l : list N) (o : obj) : bool := existsb (N.eqb (opay o)) l.
+Definition type_ne (v : ustring) (o : obj) : bool := negb (ustr_eqb (otype o) v).
+Definition type_in (l : list ustring) (o : obj) : bool := existsb (ustr_eqb (otype o)) l.
+Definition oid_ne (v : ustring) (o : obj) : bool := negb (ustr_eqb (oid o) v).
+Definition oid_in (l : list ustring) (o : obj) : bool := existsb (ustr_eqb (oid o)) l.
+Definition prop_ne (k v : ustring) (o : obj) : bool :=
+  match prop_get k o with Some x => negb (ustr_eqb x v) | None => false end.
+Definition prop_in (k : ustring) (l : list ustring) (o : obj) : bool :=
+  match prop_get k o with Some x => existsb (ustr_eqb x) l | None => false end.
+
 Section Render.
   Variable mode : text_mode.
   Variable it : ustring -> option Z.
